@@ -407,8 +407,11 @@ def check_clone(repo: Repo, run: Run) -> None:
         if isinstance(st, (ast.Assign, ast.AnnAssign)) and st.value is not None:
             for t in (st.targets if isinstance(st, ast.Assign) else [st.target]):
                 if isinstance(t, ast.Attribute) and isinstance(t.value, ast.Name) and t.value.id == ime:
-                    if isinstance(st.value, ast.Name) and st.value.id in params:
-                        by_param[st.value.id] = t.attr
+                    used = [x.id for x in ast.walk(st.value) if isinstance(x, ast.Name) and x.id in params]
+                    if used:
+                        # `self.f = p`, `self.f = p if p else None`, `self.f = p or default`: the field comes from p
+                        for u in used:
+                            by_param[u] = t.attr
                     elif isinstance(st.value, ast.Constant):
                         defaults.setdefault(t.attr, st.value)
     # what the setter stores
